@@ -3,15 +3,16 @@ import numpy as np
 from . import harness as H
 
 
-def make_ioapi(P, nt=4, nz=3, ny=5, nx=6, sdate=2019364, stime=220000, tstep=10000, nvars=2, boundary=False, seed=0):
+def make_ioapi(P, nt=4, nz=3, ny=5, nx=6, sdate=2019364, stime=220000, tstep=10000, nvars=2, boundary=False, seed=0, names=None):
     from PseudoNetCDF.cmaqfiles import ioapi_base
     rs = np.random.default_rng(seed)
     arrs = {}
-    for i in range(nvars):
+    for i in range(nvars if names is None else len(names)):
+        key = 'V%d' % i if names is None else names[i]
         if boundary:
-            arrs['V%d' % i] = rs.random((nt, nz, 2 * (nx + ny) + 4)).astype('f')
+            arrs[key] = rs.random((nt, nz, 2 * (nx + ny) + 4)).astype('f')
         else:
-            arrs['V%d' % i] = rs.random((nt, nz, ny, nx)).astype('f')
+            arrs[key] = rs.random((nt, nz, ny, nx)).astype('f')
     vg = np.linspace(1, 0, nz + 1).astype('f') ** 2
     attrs = dict(SDATE=sdate, STIME=stime, TSTEP=tstep, XORIG=-1000., YORIG=500., XCELL=12000., YCELL=4000., VGLVLS=vg, VGTOP=5000.,
                  NCOLS=nx, NROWS=ny, NLAYS=nz, GDTYP=2, P_ALP=33., P_BET=45., P_GAM=-97., XCENT=-97., YCENT=40., FTYPE=2 if boundary else 1,
